@@ -166,80 +166,14 @@ func claimed(b []byte) uint64 {
 	return n
 }
 
-// lenientHeader reads a header without any canonical check; ok=false if its bytes are not all there.
-func lenientHeader(b []byte) (list bool, hl int, pl uint64, ok bool) {
-	if len(b) == 0 {
-		return false, 0, 0, false
-	}
-	t := b[0]
-	k := 0
-	switch {
-	case t < 0x80:
-		return false, 0, 1, true
-	case t <= 0xb7:
-		return false, 1, uint64(t - 0x80), true
-	case t <= 0xbf:
-		k = int(t - 0xb7)
-	case t <= 0xf7:
-		return true, 1, uint64(t - 0xc0), true
-	default:
-		list, k = true, int(t-0xf7)
-	}
-	if len(b)-1 < k {
-		return list, 0, 0, false
-	}
-	for i := 1; i <= k; i++ {
-		pl = pl<<8 | uint64(b[i])
-	}
-	return list, 1 + k, pl, true
-}
-
-// elemOverrun reports whether, reading the structure leniently as far as the bytes go, some element
-// announces more bytes (header included) than its enclosing list has left. `left` is what the enclosing
-// list announced and has not yet been used up.
-func elemOverrun(b []byte, left uint64, top bool) bool {
-	for len(b) > 0 {
-		list, hl, pl, ok := lenientHeader(b)
-		if !ok {
-			return false
-		}
-		total := uint64(hl) + pl
-		if total < pl || (!top && total > left) {
-			return !top
-		}
-		if list {
-			end := uint64(len(b))
-			if total < end {
-				end = total
-			}
-			if elemOverrun(b[hl:end], pl, false) {
-				return true
-			}
-		}
-		if top {
-			return false // only the first value is decoded
-		}
-		left -= total
-		if total >= uint64(len(b)) {
-			return false
-		}
-		b = b[total:]
-	}
-	return false
-}
-
-// unlimitedOK: which inputs the Stream without any input limit (opaque reader) is fed.
-//  * An unlimited Stream is documented as unprotected against huge top-level sizes ("Decode does not set an
-//    input limit for all readers and may be vulnerable to panics cause by huge value sizes"), so the first
-//    header must announce a modest size.
-//  * Finding "elem-larger-than-list-not-rejected:Stream.Kind" (fixed case 6): a list element that overruns its
-//    enclosing list by no more than its own header passes Stream.Kind, and for a list element the enclosing
-//    list's remaining size then wraps around to ~2^64: on an unlimited Stream later elements are no longer
-//    bounded by anything and the process dies in make() or allocates gigabytes. That is demonstrated once, with
-//    modest sizes, in the fixed corpus; the random groups keep inputs with an overrunning element away from
-//    this one path (the four limited paths see them all), so that the generic panic/fatal/alloc keys stay
-//    meaningful for everything else.
-func unlimitedOK(b []byte) bool { return claimed(b) <= uint64(len(b))+4096 && !elemOverrun(b, 0, true) }
+// unlimitedOK: which inputs the Stream without any input limit (opaque reader) is fed. An unlimited Stream is
+// documented as unprotected against huge TOP-LEVEL sizes ("Decode does not set an input limit for all readers
+// and may be vulnerable to panics cause by huge value sizes"), so the first header must announce a modest
+// size. Everything nested is bounded by its enclosing list ("For non-toplevel values, Stream returns
+// ErrElemTooLarge for values that do not fit into the enclosing list") and is exercised without restriction:
+// before the repair of Stream.Kind (stale list limit, see fixed case 6) this path died in make() or allocated
+// gigabytes on 11-byte inputs, and a regression shows up under the generic alloc:/panic:/fatal: keys.
+func unlimitedOK(b []byte) bool { return claimed(b) <= uint64(len(b))+4096 }
 
 const (
 	pDecodeBytes = iota
@@ -863,24 +797,12 @@ func (e *env) checkValue(t *tcase, v reflect.Value, g *vgen) []byte {
 		var gerr error
 		c.Guard("geth.DecodeBytes", func() interface{} { return wit(enc, "") }, func() { gerr = grlp.DecodeBytes(enc, gt.Interface()) })
 		if gerr != nil {
-			if !gethKnownDecodeBug(t.d, enc) {
-				e.viol("geth-rejects-own-encoding", "go-ethereum v1.9.15 cannot decode go-kardia's encoding: "+gerr.Error(), wit(enc, ""))
-			} else {
-				run.Count("geth_wrong:[1]byte-zero", 1)
-			}
+			e.viol("geth-rejects-own-encoding", "go-ethereum v1.9.15 cannot decode go-kardia's encoding: "+gerr.Error(), wit(enc, ""))
 		} else if re, err := grlp.EncodeToBytes(gt.Interface()); err != nil || !bytes.Equal(re, enc) {
 			e.viol("geth-roundtrip-differs", fmt.Sprintf("go-ethereum decodes and re-encodes go-kardia's encoding as %s (err %v)", hexs(re), err), wit(enc, ""))
 		}
 	}
 	return enc
-}
-
-// gethKnownDecodeBug: go-ethereum v1.9.15 mis-decodes a [1]byte holding 0x00 (decodeByteArray calls s.Uint(),
-// which fails on the single byte 0x00 without consuming it; fixed upstream later). Spec-wise 0x00 is the
-// canonical encoding of the one-byte string 00, so go-kardia is right to accept it.
-func gethKnownDecodeBug(d *tdesc, x []byte) bool {
-	has1 := d.any(func(t *tdesc, _ *fdesc) bool { return t != nil && t.k == tByteArr && t.n == 1 })
-	return has1 && bytes.IndexByte(x, 0x00) >= 0
 }
 
 // checkTyped: one byte string against one generated type through every decode path.
@@ -896,8 +818,8 @@ func (e *env) checkTyped(t *tcase, x []byte, class string) {
 		}
 		return map[string]interface{}{"type": t.typ, "input": hexw(x), "class": class, "path": path, "strict_parser": s, "detail": extra}
 	}
-	var acceptedCanon bool   // some path accepted x and x is the encoder's output for the decoded value
-	var rejected []int       // paths that rejected
+	var acceptedCanon bool // some path accepted x and x is the encoder's output for the decoded value
+	var rejected []int     // paths that rejected
 	var rejectedErr []error
 	var kerr0 error
 	for pth := 0; pth < pPaths; pth++ {
@@ -972,9 +894,7 @@ func (e *env) checkTyped(t *tcase, x []byte, class string) {
 				}
 			} else {
 				// go-kardia accepted; its acceptance was judged above (strict parser + re-encoding). If it passed, geth is over-strict.
-				if gethKnownDecodeBug(t.d, x) {
-					run.Count("geth_wrong:[1]byte-zero", 1)
-				} else if acceptedCanon {
+				if acceptedCanon {
 					e.viol("geth-rejects-canonical-encoding", fmt.Sprintf("go-kardia accepts x (= Encode(Decode(x))) but go-ethereum v1.9.15 rejects it: %v — triage against the RLP specification", gerr), wit("geth", ""))
 				}
 			}
@@ -1152,7 +1072,6 @@ func groupValues(c *core.Case) {
 		e.viol("generated-type-refused", "a type of the grammar is refused by the encoder: "+werr.Error(), map[string]interface{}{"type": t.typ})
 		return
 	}
-	nontrivial := false
 	for k := 0; k < valuesPerType; k++ {
 		g := newVgen(r)
 		v := g.val(d, nil)
@@ -1162,7 +1081,6 @@ func groupValues(c *core.Case) {
 		}
 		tree, terr := strictDecode(enc)
 		if terr == nil && tree.count() >= 2 {
-			nontrivial = true
 			run.Nontrivial("v|" + t.typ + "|" + hexw(enc))
 			run.Distinct("encoding_shapes", tree.shape(40))
 		}
@@ -1215,7 +1133,6 @@ func groupValues(c *core.Case) {
 			e.checkTyped(t, genItem(r, 0).enc(), "foreign-canonical")
 		}
 	}
-	_ = nontrivial
 }
 
 // adversarial: headers announcing 2^32..2^64-1 bytes and deep nesting, generic and typed
@@ -1223,7 +1140,7 @@ type advT struct {
 	A uint64
 	B []byte
 	C []advT2
-	D *[32]byte `rlp:"nil"`
+	D *[32]byte      `rlp:"nil"`
 	T []rlp.RawValue `rlp:"tail"`
 }
 type advT2 struct {
